@@ -1755,6 +1755,9 @@ async fn initial_state(
         .account
         .create_folder(NewFolderOptions {
             flags: Some(VaultFlags::NO_SYNC),
+            // the default and archive folders use the default cipher
+            // (XChaCha20-Poly1305): this one covers AES-GCM-256
+            cipher: Some(Cipher::AesGcm256),
             ..NewFolderOptions::new("folder-2".to_string())
         })
         .await?;
